@@ -579,6 +579,12 @@ fn do_walk(out: &mut Out, ctx: &mut Ctx, sc: &Scen, target: Option<&str>, sel: O
 						}
 						e
 					}
+					// an output without any tile (selection hits no source tile): tar / directory / mbtiles
+					// readers refuse to open an empty container – the output map is empty, as expected
+					Ok(Err(_)) if want.is_empty() => {
+						out.count("empty_output_not_openable");
+						None
+					}
 					Ok(Err(err)) => Some(format!("{target} output cannot be re-opened: {err}")),
 					Err(p) => Some(format!("{target} output: reader panicked: {p}")),
 				}
